@@ -72,6 +72,7 @@ def work(args):
             return out
         out["info"] = info
         out["dropped"] = sorted(eng.dropped)
+        replayed = {}
         for ob in obs:
             if ob.kind == "cover-any":
                 st, tt = "unsat", 0.0
@@ -98,13 +99,16 @@ def work(args):
                 rec["reason"] = r.get("reason")
             if tier == "thorough" and r["status"] == "unsat" and ob.expect == "unsat" and ob.kind != "cover-any":
                 rec["cross"] = "skipped"
-            if rec["status"] == "sat" and ob.expect == "unsat":
-                m = r.get("model")
+            if rec["status"] in ("sat", "unknown") and ob.expect == "unsat" and ob.kind != "cover-any":
+                m = r.get("model") if rec["status"] == "sat" else None
                 rec["model"] = str(m)[:6000] if m is not None else None
                 rp = eng.replayers.get(key) if hasattr(eng, "replayers") else None
-                if rp is not None and m is not None:
+                if rp is not None and key in replayed and m is None:
+                    rec["replay"] = replayed[key]
+                elif rp is not None:
                     try:
                         rec["replay"] = rp(eng, ob, m, seed)
+                        replayed.setdefault(key, rec["replay"])
                     except Exception as e:  # a crashing realiser must not hide the failed obligation
                         rec["replay"] = {"error": f"{type(e).__name__}: {e}", "trace": traceback.format_exc()[-1500:]}
             if len(out["obligations"]) < 3 and ob.kind != "cover-any":
